@@ -58,6 +58,8 @@ func isHeaderWrite(in ssa.Instruction) (recvReq ssa.Value, key ssa.Value, val ss
 }
 
 func runC10(c *Ctx) {
+	hostMatchNeedsEqualLabelCount(c, "R7")
+	extraHeadersLookedUpPerURL(c, "R7")
 	p := c.P
 	noUserinfoOnRedirect(c, "R1")
 	verifyUsesOnlyVerifyAction(c, "R1")
